@@ -425,6 +425,10 @@ public:
       sandbox_created.store(Sandbox_Status::CREATED);
       RLBOX_ACQUIRE_UNIQUE_GUARD(lock, sandbox_list_lock);
       sandbox_list.push_back(this);
+    } else {
+      // creation failed: the sandbox is not created, so creating it can be
+      // attempted again
+      sandbox_created.store(Sandbox_Status::NOT_CREATED);
     }
 
     return created;
